@@ -1,6 +1,7 @@
 import PyAirtouch.Util.Hex
 import PyAirtouch.Model.Crc
 import PyAirtouch.Model.SockValidate
+import PyAirtouch.Model.Heartbeat
 /-! Line-protocol driver over the *model* (Gen + Model). One request per line, one answer per line. -/
 open PyAirtouch PyAirtouch.Util PyAirtouch.Model
 
@@ -22,6 +23,20 @@ def answerPure (ws : List String) : String :=
       | .overflow => "OverflowError"
       | .result b => if b then "true" else "false"
     | _, _ => "bad-op"
+  | "hb" :: i :: t :: rest =>
+    let parseIn (ws : List String) : Option Model.Heartbeat.HIn :=
+      match ws with
+      | ["conn", b, t] => t.toNat?.map (Model.Heartbeat.HIn.conn (b = "1"))
+      | ["start", t] => t.toNat?.map .start
+      | ["stop", t] => t.toNat?.map .stop
+      | ["resp", t] => t.toNat?.map .resp
+      | ["resetDone", t] => t.toNat?.map .resetDone
+      | ["finish", t] => t.toNat?.map .finish
+      | _ => none
+    match i.toNat?, t.toNat?, (Spec.Heartbeat.splitSemi rest).mapM parseIn with
+    | some i, some t, some ins =>
+      " ; ".intercalate ((Model.Heartbeat.simulate i t ins).map Spec.Heartbeat.HEv.toText)
+    | _, _, _ => "bad-op"
   | _ => "bad-op"
 
 def answer (st : DState) (ws : List String) : DState × String :=
